@@ -7,7 +7,7 @@ CLASSES = {"parse"}
 
 
 def run(ctx):
-    cov, viol = E.run_engine(ctx, "c02", ["plain", "flags"], 200, 6000, CLASSES)
+    cov, viol = E.run_engine(ctx, "c02", ["plain", "flags"], 200, 6000, CLASSES, small=(False, 8, 250))
     return {"coverage": cov, "violations": viol}
 
 
